@@ -217,7 +217,7 @@ def run_property(prop, tier, seed, nshards=None, quiet=False):
     lines = []
     for (key, text), cnt in sorted(known_hits.items()):
         lines.append("KNOWN-FINDING: property=%s %s [key=%s, %d case(s) this run]" % (prop, text, key, cnt))
-    rdir = ROOT / "replays" / prop
+    rdir = Path(os.environ.get("VERIF_REPLAY_DIR", str(ROOT / "replays"))) / prop
     import re as _re
     from vmon.core import h64
 
@@ -276,8 +276,9 @@ def run_property(prop, tier, seed, nshards=None, quiet=False):
         "wall_s": round(wall, 2),
         "violations": len(unlisted),
     }
-    (ROOT / "evidence").mkdir(exist_ok=True)
-    (ROOT / "evidence" / ("%s.json" % prop)).write_text(json.dumps(evidence, indent=1, sort_keys=True, default=str) + "\n")
+    evdir = Path(os.environ.get("VERIF_EVIDENCE_DIR", str(ROOT / "evidence")))
+    evdir.mkdir(parents=True, exist_ok=True)
+    (evdir / ("%s.json" % prop)).write_text(json.dumps(evidence, indent=1, sort_keys=True, default=str) + "\n")
 
     for ln in lines:
         print(ln)
